@@ -9,6 +9,9 @@ replay input of the VIOLATION.  (For the data-structure functions the concrete i
 comes from the bounded stand-in instead.)
 """
 import itertools
+import warnings
+
+warnings.simplefilter("ignore")
 
 
 def _chunks_spec(n, s, got):
@@ -122,7 +125,99 @@ def search_flags(mod):
     return None
 
 
+def search_lru_iter(mod):
+    f = mod["traph.helpers"].lru_iter
+    alpha = [b"|", b"a", b"\x00", b"\xff"]
+    # every byte value inside a stem, then every short string over a small alphabet
+    cases = [b"p:" + bytes([b]) + b"x|q" + bytes([b]) + b"|" for b in range(256) if b != 0x7C]
+    cases += [b"".join(tup) for k in range(0, 6) for tup in itertools.product(alpha, repeat=k)]
+    for s in cases:
+        if True:
+            try:
+                got = list(f(s))
+            except Exception as e:
+                return {"input": {"lru": repr(s)}, "observed": "raised %r" % (e,), "expected": "no exception"}
+            exp = [x + b"|" for x in s.split(b"|")[:-1]]
+            if got != exp:
+                return {"input": {"lru": repr(s)}, "observed": repr(got), "expected": repr(exp)}
+    return None
+
+
+def search_lru_dirname(mod):
+    f = mod["traph.helpers"].lru_dirname
+    stems = [b"a|", b"s:http|", b"\x00|", b"|", b"h:com|"]
+    for k in range(0, 5):
+        for tup in itertools.product(stems, repeat=k):
+            s = b"".join(tup)
+            try:
+                got = f(s)
+            except Exception as e:
+                return {"input": {"lru": repr(s)}, "observed": "raised %r" % (e,), "expected": "no exception"}
+            pieces = [x + b"|" for x in s.split(b"|")[:-1]]
+            exp = b"".join(pieces[:-1])
+            if got != exp:
+                return {"input": {"lru": repr(s)}, "observed": repr(got), "expected": repr(exp)}
+    return None
+
+
+def search_add_page_ladder(mod):
+    """Traph.__add_page against the statement of C06 on a few rule configurations"""
+    import re
+    import shutil
+    import tempfile
+
+    T = mod["traph.traph"].Traph
+    rules_sets = [
+        {b"s:http|h:com|": b"(s:[a-z]+\\|h:com\\|(h:[^|]+\\|)+)", b"s:http|h:com|h:a|": b"(s:[a-z]+\\|h:com\\|h:a\\|p:[^|]+\\|)"},
+        {b"s:http|": b"(s:[a-z]+\\|h:[^|]+\\|)", b"s:http|h:com|h:a|p:x|": b"(s:http\\|h:com\\|h:a\\|p:x\\|)"},
+    ]
+    pages = [b"s:http|h:com|h:a|", b"s:http|h:com|h:a|p:x|", b"s:http|h:com|h:a|p:x|p:y|", b"s:http|h:com|", b"s:http|h:fr|h:b|p:z|"]
+    pre_sets = [[], [b"s:http|h:com|h:a|"], [b"s:http|h:com|h:a|p:x|"], [b"s:http|h:com|"]]
+    for rules in rules_sets:
+        for pre in pre_sets:
+            for default in (b"$^", b"(s:[a-z]+\\|(h:[^|]+\\|)+)"):
+                for page in pages:
+                    d = tempfile.mkdtemp(prefix="vreplay")
+                    try:
+                        t = T(folder=d, default_webentity_creation_rule=default, webentity_creation_rules=dict(rules))
+                        for x in pre:
+                            try:
+                                t.create_webentity([x])
+                            except Exception:
+                                pass
+                        # E: longest existing webentity prefix; K: longest proposal of the rules anchored on stem-prefixes
+                        node, hist = t.lru_trie.follow_lru(page)
+                        stems = list(mod["traph.helpers"].lru_iter(page))
+                        prefs = [b"".join(stems[: i + 1]) for i in range(len(stems))]
+                        E = b""
+                        for pf in prefs:
+                            n2 = t.lru_trie.lru_node(pf)
+                            if n2 and n2.has_webentity():
+                                E = pf
+                        K = b""
+                        for pf in prefs:
+                            if pf in rules:
+                                m = re.compile(rules[pf], re.I).search(page)
+                                if m and len(m.group()) > len(K):
+                                    K = m.group()
+                        if not K and not E:
+                            m = re.compile(default, re.I).search(page)
+                            K = m.group() if m else b""
+                        report = t.add_page(page)
+                        created = bool(report.created_webentities)
+                        exp = len(K) > len(E)
+                        t.close()
+                        if created != exp:
+                            return {"input": {"rules": repr(rules), "existing": repr(pre), "default": repr(default), "page": repr(page)}, "observed": "created=%r" % created, "expected": "created=%r (E=%r, K=%r)" % (exp, E, K)}
+                    finally:
+                        shutil.rmtree(d, ignore_errors=True)
+    return None
+
+
 SEARCHES = {
+    "lru_iter": search_lru_iter,
+    "lru_dirname": search_lru_dirname,
+    "Traph.__add_page": search_add_page_ladder,
     "detailed_chunks_iter": search_detailed_chunks_iter,
     "https_variation": search_https_variation,
     "lru_variations": search_lru_variations,
@@ -148,6 +243,10 @@ def replay(qual, repo):
     mods = {}
     for m in ("traph.helpers", "traph.lru_trie.node", "traph.lru_trie.walk_history"):
         mods[m] = importlib.import_module(m)
+    try:
+        mods["traph.traph"] = importlib.import_module("traph.traph")
+    except Exception:  # third-party imports of the facade unavailable under this interpreter
+        pass
     try:
         return fn(mods)
     except Exception as e:  # the real function crashed outside the searched contract
